@@ -240,7 +240,19 @@ def LC3_wait_predicates(ctx):
                         caps = [strip(c) for c in s[2]]
                         if strip(last[1]) not in caps:
                             badc.append((p, e))
-            ctx.ob('LC3', cf, 'predicate-uses-current-cursor', not badc, f'{len(badc)} use(s) capture a stale cursor value', site=cf.loc(cf.b['lo']))
+                        # and asks the SAME question as the loop's own probe: (cursor, carried lower bound), in that order
+                        cb = ctx.facts.by[cname]
+                        names = [cf.upvar_names.get('upvar:' + c, c) for c in cb.get('caps', [])]
+                        amap = {('upvar', n_): strip(s[2][i_]) for i_, n_ in enumerate(names) if i_ < len(s[2])}
+                        for q in feasible(cf.paths()):
+                            for x in q.events:
+                                if is_call(x, 'Scheduler::lock_finality_candidate'):
+                                    got = [amap.get(strip(a_), strip(a_)) for a_ in x.d['args'][1:3]]
+                                    want = [strip(a_) for a_ in last[1:3]]
+                                    if got != want and (p, e) not in badc:
+                                        badc.append((p, e))
+            ctx.ob('LC3', cf, 'predicate-uses-current-cursor', not badc, f'{len(badc)} use(s) capture a stale cursor value or probe with other arguments than the loop itself', site=cf.loc(cf.b['lo']),
+                   what='the predicate asks exactly what the loop just asked — lock_finality_candidate(current finality index, carried lower bound) — so "still blocked" means the loop would find nothing')
 
 
 _TRY = re.compile(r'::(try_lock|try_lock_for|try_lock_until|try_read|try_write|try_read_for|try_write_for|is_locked|try_get|try_get_mut|try_entry|try_recv)$')
